@@ -263,6 +263,27 @@ func checkTplEntryPoints(c *Ctx, src string, vars map[string]string, main string
 			note = "SetDefaultVariables + Evaluate() gives " + g + ", EvaluateWithVariables " + main
 			return ""
 		}
+		// (a0) the defaults are given BEFORE the template is set, automatic variables on, keys in ANOTHER letter case than
+		// the template spells them: no second entry may shadow them (names are matched case-insensitively)
+		t0 := mustache.NewMustacheTemplate()
+		flipped := map[string]string{}
+		unambiguous := true
+		folded := map[string]bool{}
+		for k, v := range vars {
+			if folded[strings.ToLower(k)] {
+				unambiguous = false // two keys that differ in case only: which one wins depends on their spelling
+			}
+			folded[strings.ToLower(k)] = true
+			flipped[swapCase(k)] = v
+		}
+		if unambiguous {
+			t0.SetDefaultVariables(flipped)
+			t0.SetTemplate(src)
+			if g := res(t0.Evaluate()); g != main {
+				note = "default variables set before the template (keys in the other letter case) + Evaluate() gives " + g + ", EvaluateWithVariables " + main
+				return ""
+			}
+		}
 		// (a') an explicitly passed map is used as it is, also when it is empty, whatever the defaults hold
 		t1b := mustache.NewMustacheTemplate()
 		t1b.SetTemplate(src) // automatic variables on: the defaults get one entry per name ...
